@@ -230,6 +230,45 @@ def run(cfg, fault_at=None, resume_from=None, file_path=None, keep_points=False,
     out.history = snapshot_history(smp.history) if smp is not None else None
     out.n_calls = mon.n_calls
     out.kernel_invocations = _kernel.CONFIG["invocations"]
+    out.kw, out.N = kw, N
+    return out
+
+
+def resume_on_same_sampler(F, resume_from):
+    """The user catches the fault and calls sample(resume_from=...) again on the very sampler object that was interrupted
+    (same process, same arguments).  ``F`` is the faulted Run."""
+    import _kernel
+    import orng
+
+    cfg = F.cfg
+    _kernel.reset(mode="prw" if cfg["sampler"] == "smc" else "det", scale=cfg.get("scale", 0.6), horizon=cfg.get("horizon", 200))
+    orng.CONFIG["factory"] = None
+    orng.CONFIG["seed"] = cfg["seed"]
+    F.mon.fault_at = None
+    kw = dict(F.kw)
+    kw["sampler_kwargs"] = dict(kw["sampler_kwargs"])
+    kw["resume_from"] = resume_from
+    smp = F.sampler
+    if cfg["sampler"] != "smc" and cfg.get("rng_way") != "constructor":
+        smp.rng = np.random.default_rng(cfg["seed"])
+    out = Run()
+    out.cfg, out.mon, out.aspire, out.sink, out.live = cfg, F.mon, F.aspire, F.sink, F.live
+    out.exception, out.result = None, None
+    try:
+        res = smp.sample(F.N, **kw)
+        out.result = {
+            "final": snapshot_samples(res),
+            "log_evidence": float(tonp(res.log_evidence)),
+            "log_evidence_error": float(tonp(res.log_evidence_error)),
+            "evidence_dtypes": [str(tonp(res.log_evidence).dtype), str(tonp(res.log_evidence_error).dtype)],
+            "evidence_exact": [repr(float(tonp(res.log_evidence))), repr(float(tonp(res.log_evidence_error)))],
+        }
+    except Exception as e:
+        from env import exc_site
+
+        out.exception = (type(e).__name__, exc_site(e), str(e)[:200])
+    out.sampler = smp
+    out.history = snapshot_history(smp.history) if smp.history is not None else None
     return out
 
 
